@@ -94,17 +94,21 @@ class LeafNode(TreeNode):
         """
         printer.write(repr(self.object))
 
+    @staticmethod
+    def _mixed_type_sort_key(obj):
+        # Objects of unrelated types have no natural order. Falling back to their string forms alone is not transitive
+        # together with the natural order (9 < 10, but "10" < "1a" < "9"), so the result of sorting such objects would
+        # depend on the order in which they were given. Order by kind first, then by string form.
+        kind = 'number' if isinstance(obj, (int, float)) else type(obj).__name__
+        return kind, str(obj)
+
     def __lt__(self, other):
         if isinstance(other, LeafNode):
-            try:
-                return self.object < other.object
-            except TypeError:
-                return str(self.object) < str(other.object)
-        else:
-            try:
-                return self.object < other
-            except TypeError:
-                return str(self.object) < str(other)
+            other = other.object
+        try:
+            return self.object < other
+        except TypeError:
+            return self._mixed_type_sort_key(self.object) < self._mixed_type_sort_key(other)
 
     def __eq__(self, other):
         if isinstance(other, LeafNode):
